@@ -10,20 +10,24 @@ Definition reenc_ok (reenc : str -> str) : Prop :=
   forall m, (1024 < N.of_nat (length (encode_replace m)))%N ->
             reenc (take 1024 (encode_replace m)) = encode_replace_upto 1024 m.
 
-Theorem gen_step_tie : forall reenc, reenc_ok reenc -> forall ip6 handler mw up ip fp s e,
-  gen_step reenc ip6 handler mw up ip fp s e = step ip6 handler mw up ip fp s e.
+Theorem gen_step_tie : forall reenc, reenc_ok reenc -> forall ip6 handler mw up ucf ip fp s e,
+  gen_step reenc ip6 handler mw up ucf ip fp s e = step ip6 handler mw up ucf ip fp s e.
 Proof. exact ServerLoop_proofs.gen_step_tie. Qed.
 Print Assumptions gen_step_tie.
 
-Theorem gen_run_tie : forall reenc, reenc_ok reenc -> forall ip6 handler mw up ip fp evs s,
-  gen_run reenc ip6 handler mw up ip fp s evs = run ip6 handler mw up ip fp s evs.
+Theorem gen_run_tie : forall reenc, reenc_ok reenc -> forall ip6 handler mw up ucf ip fp evs s,
+  gen_run reenc ip6 handler mw up ucf ip fp s evs = run ip6 handler mw up ucf ip fp s evs.
 Proof. exact ServerLoop_proofs.gen_run_tie. Qed.
 Print Assumptions gen_run_tie.
 
-Theorem gen_final_tie : forall reenc, reenc_ok reenc -> forall ip6 handler mw up ip fp evs s,
-  gen_final reenc ip6 handler mw up ip fp s evs = final ip6 handler mw up ip fp s evs.
+Theorem gen_final_tie : forall reenc, reenc_ok reenc -> forall ip6 handler mw up ucf ip fp evs s,
+  gen_final reenc ip6 handler mw up ucf ip fp s evs = final ip6 handler mw up ucf ip fp s evs.
 Proof. exact ServerLoop_proofs.gen_final_tie. Qed.
 Print Assumptions gen_final_tie.
+
+(* In these statements `ucf` ranges over every behaviour of the upload handler's CALL (None: an awaitable comes back; Some msg: it
+   fails with that message before one exists): the generated transition function, with the translator's oracle instantiated by
+   `upcall_of ucf`, is the model's for each of them. *)
 
 (* the assumption is satisfiable: "the longest prefix that decodes strictly" is such a re-encoder *)
 From NV Require Proofs.Reenc_exists.
